@@ -77,6 +77,10 @@ def one_view_op(sw, path, fld, n, s, e, op, idx):
         model = elems(full)
         donor = full[0].copy() if hasattr(full[0], 'copy') else None
         donor_d = model[0]
+        doc_prefix = []
+        if fld == '_body':
+            real = elems(node.body)
+            doc_prefix = real[:len(real) - len(model)]
     except Exception:
         return
     if donor is None or len(model) != n:
@@ -151,6 +155,11 @@ def one_view_op(sw, path, fld, n, s, e, op, idx):
     try:
         node2 = follow(root, path) if path else root
         got = elems(getattr(node2, fld))
+        if fld == '_body':
+            # `_body` hides a leading docstring, and an edit can turn the first remaining statement INTO the docstring:
+            # the list law is judged on the real `body` field (hidden prefix + model)
+            got = elems(getattr(node2, 'body'))
+            exp = doc_prefix + exp
     except Exception:
         return
     if op == 'setslice':
